@@ -258,9 +258,9 @@ ExactBeatsAll == gen = "cred" /\ "exact" \in cfg.table /\ req.host = "origin" /\
 NoProxyNoProxyAuth == gen = "cred" /\ cfg.up = "none" => out.proxyAuth = "none"
 Emit == IF gen = "cred" THEN PrintT(ToJson([gen |-> gen, cfg |-> cfg, req |-> req, out |-> out]))
         ELSE PrintT(ToJson([gen |-> gen, cfg |-> cfg, req |-> req, out |-> out, alts |-> FailSet(cfg, req)]))
-==========================================================================\* CredConc: the credential decision is a function of the one request it is made for (CredSite above takes nothing
+\* CredConc: the credential decision is a function of the one request it is made for (CredSite above takes nothing
 \* else): tunnels to different sites opened through the same upstream proxy at the same time each carry their own
 \* site's entry. The harness (c06-conc) opens 12 x 30 CONNECTs to six sites with six entries concurrently and checks
 \* every CONNECT the upstream proxy receives against the entry of its own target.
 CredConcSites == 6
-====
+==============================================================================
